@@ -138,3 +138,43 @@ pub fn twin() {
     vcheck!(n == 0, "twin:reachable");
     std::mem::forget(r);
 }
+
+/// recover()'s segment selection (the statements between reading the checkpoint and fetching the first segment):
+/// `n` listed segments with symbolic distinct ids and symbolic minimum stamps (equal minima included), optionally a
+/// checkpoint covering segments up to a symbolic id. Every listed segment that the checkpoint does not cover must be
+/// loaded; nothing that is not listed may be.
+pub fn segment_plan(n: usize) {
+    let ids = [vs::u64(), vs::u64(), vs::u64()];
+    let mins = [vs::u64(), vs::u64(), vs::u64()];
+    vs::assume(ids[0] < 8 && ids[1] < 8 && ids[2] < 8);
+    vs::assume(ids[0] != ids[1]);
+    if n > 2 { vs::assume(ids[0] != ids[2] && ids[1] != ids[2]); }
+    let has_ck = vs::bool();
+    let last = vs::u64();
+    vs::assume(last < 8);
+    let plan = crate::env::recover_plan(&ids[..n], &mins[..n], if has_ck { Some(last) } else { None });
+    let mut all = true;
+    let mut i = 0;
+    while i < n {
+        if !has_ck || ids[i] > last {
+            let mut found = false;
+            let mut j = 0;
+            while j < plan.len() { if plan[j] == ids[i] { found = true; } j += 1; }
+            if !found { all = false; }
+        }
+        i += 1;
+    }
+    vcheck!(all, "plan:a listed segment that the checkpoint does not cover is not loaded by recover()");
+    let mut only = true;
+    let mut j = 0;
+    while j < plan.len() {
+        let mut listed = false;
+        let mut i = 0;
+        while i < n { if ids[i] == plan[j] { listed = true; } i += 1; }
+        if !listed { only = false; }
+        j += 1;
+    }
+    vcheck!(only, "plan:recover() loads a segment the manifest does not list");
+    vcover!(n > 1 && mins[0] == mins[1], "two segments with equal minimum stamps");
+    std::mem::forget(plan);
+}
